@@ -146,6 +146,10 @@ func c08Check(ctx *Ctx, idx int, cs c08Case) {
 }
 
 func c08Gen(r *hx.Rand, fedSeed uint64) (c08Case, bool) {
+	return c08GenN(r, fedSeed, r.Range(0, 8))
+}
+
+func c08GenN(r *hx.Rand, fedSeed uint64, n int) (c08Case, bool) {
 	f, err := c08Fed(fedSeed)
 	if err != nil {
 		return c08Case{}, false
@@ -155,7 +159,6 @@ func c08Gen(r *hx.Rand, fedSeed uint64) (c08Case, bool) {
 		return c08Case{}, false
 	}
 	cs := c08Case{FedSeed: fedSeed}
-	n := r.Range(0, 8)
 	usedMutation := false
 	for i := 0; i < n; i++ {
 		var it c08Item
@@ -207,7 +210,7 @@ func c08Mark(q, marker string) string {
 }
 
 func runC08(ctx *Ctx) error {
-	ctx.Rep.Rule = "case = a JSON-array body of 0..8 operations (valid queries, one mutation, invalid, introspection, downstream-failing, slow) through the real Handler of a generated federation; " +
+	ctx.Rep.Rule = "case = a JSON-array body of 0..8 operations (plus batches of 17..130, thorough up to 1025) (valid queries, one mutation, invalid, introspection, downstream-failing, slow) through the real Handler of a generated federation; " +
 		"oracle: response is an array of the same length and result i equals the answer to operation i sent alone; distinct = distinct batch; non-trivial = ≥2 operations of ≥2 kinds"
 	cases := 120
 	if ctx.Thorough() {
@@ -216,6 +219,18 @@ func runC08(ctx *Ctx) error {
 	// corpus: empty batch, single element batch
 	c08Check(ctx, 0, c08Case{FedSeed: 7, Batch: nil})
 	c08Check(ctx, 1, c08Case{FedSeed: 7, Batch: []c08Item{{Kind: "invalid", Query: "{ nope }"}}})
+	// large batches: a fixed internal limit (worker pool, semaphore, buffer) only shows past its threshold
+	bigs := []int{17, 65, 130}
+	if ctx.Thorough() {
+		bigs = append(bigs, 33, 257, 1025)
+	}
+	for i, n := range bigs {
+		r := ctx.Rand.Fork()
+		if cs, ok := c08GenN(r, r.U64()%100000, n); ok {
+			ctx.Rep.Count(fmt.Sprintf("large batch n=%d", n))
+			c08Check(ctx, 1000000+i, cs)
+		}
+	}
 	for k := 0; k < cases; k++ {
 		r := ctx.Rand.Fork()
 		cs, ok := c08Gen(r, r.U64()%100000)
